@@ -437,7 +437,7 @@ func ExecuteUpload(t *testing.T, plan *Plan, opts Opts) *RunResult {
 	if len(leak) > 0 {
 		add("goroutine-leak", fmt.Sprintf("%d goroutine(s) of the library are still alive after Close returned:\n%s", len(leak), firstLines(leak[0], 30)))
 	}
-	res.Stats.NonTrivial["C18|"+class+fmt.Sprintf(" size=%d writes=%d", sizeBucket(p.Size), min(len(p.Writes), 4))]++
+	res.Stats.NT("C18|" + class + fmt.Sprintf(" size=%d writes=%d", sizeBucket(p.Size), min(len(p.Writes), 4)))
 	res.Stats.Classes[class]++
 	res.Stats.FaultsFired["upload:"+p.Action+":"+cancelClass(p)]++
 	return res
